@@ -166,7 +166,7 @@ async def _member(case, spec, tag, obs, c, loop, net, ctl):
         except ConsumerStoppedError:
             raise
         except KafkaError as e:
-            obs.ev(loop, "api_error", tag, call=kind, error=type(e).__name__)
+            obs.ev(loop, "api_error", tag, call=kind, error=type(e).__name__, detail=repr(e)[:200], cause=repr(e.__cause__)[:200])
             await asyncio.sleep(0.01)
 
     async def stop(tagname):
